@@ -76,7 +76,9 @@ def execute(ctx, binary, behs, tag, slow=False, shards=3, timeout=170):
     index of the behaviour in `behs`)."""
     if not behs:
         return {"behaviours": 0, "steps": 0, "differ": 0, "sites": {}, "site_examples": {}}, []
-    shards = max(1, min(shards, len(behs)))
+    # at most 8 000 behaviours per driver process (each stays far below three minutes); `shards` of them run side by side
+    jobs = shards
+    shards = max(1, min(max(shards, -(-len(behs) // 8000)), len(behs)))
     parts = [list(range(k, len(behs), shards)) for k in range(shards)]
     arglists, outs = [], []
     for k, idx in enumerate(parts):
@@ -89,7 +91,7 @@ def execute(ctx, binary, behs, tag, slow=False, shards=3, timeout=170):
             args.append("-slow")
         arglists.append(args)
         outs.append(rp)
-    sums = xc.drive_parallel(ctx, binary, arglists, timeout=timeout)
+    sums = xc.drive_parallel(ctx, binary, arglists, timeout=timeout, jobs=jobs)
     merged = {"behaviours": 0, "steps": 0, "differ": 0, "skipped": 0, "frames": 0, "storm_frames": 0, "forged_frames": 0,
               "non_dhcp_frames": 0, "sites": {}, "site_examples": {}, "nets": sorted({s["net"] for s in sums})}
     diffs = []
@@ -100,8 +102,12 @@ def execute(ctx, binary, behs, tag, slow=False, shards=3, timeout=170):
             merged["sites"][site] = merged["sites"].get(site, 0) + n
         for site, (i, st) in s.get("site_examples", {}).items():
             merged["site_examples"].setdefault(site, [parts[k][i], st])
+        merged["drift_forged_to"] = merged.get("drift_forged_to", 0) + s.get("drift_forged_to", 0)
         for m in xc.read_results(outs[k]):
             m["i"] = parts[k][m["i"]]
+            if m["aspect"].startswith("drift-"):
+                merged.setdefault("drift_examples", []).append({"behaviour": m["i"], "step": m["step"], "what": m["what"], "got": m.get("got")})
+                continue
             diffs.append(m)
     return merged, diffs
 
@@ -111,16 +117,14 @@ def documented_alternative(m):
     kf = m.get("kf") or []
     if m["aspect"] == "storm" and "KF_StormIgnoresMode" in kf and m.get("exp") is True and m.get("got") is False:
         return "KF_StormIgnoresMode"
-    if m["aspect"] == "forged" and "KF_ForgedMissesServer" in kf and isinstance(m.get("got"), list) and isinstance(m.get("exp"), list) \
-            and len(m["got"]) == len(m["exp"]):
-        def norm(f, doc):
+    # the statement (P_ForgedReachesServer) allows a forged frame to be broadcast or sent to the server it names; the
+    # specification records the gateway as the destination of every forged frame: a frame that differs in nothing else is DRIFT
+    if m["aspect"] == "forged" and isinstance(m.get("got"), list) and isinstance(m.get("exp"), list) and len(m["got"]) == len(m["exp"]):
+        def norm(f):
             g = dict(f)
-            if doc and g.get("to") in ("bcast", g.get("sid")):
-                g["to"] = "*"
-            elif not doc:
-                g["to"] = "*"
+            g["to"] = "*"
             return json.dumps(g, sort_keys=True)
-        if sorted(norm(f, True) for f in m["got"]) == sorted(norm(f, False) for f in m["exp"]) and \
+        if sorted(norm(f) for f in m["got"]) == sorted(norm(f) for f in m["exp"]) and \
                 all(f.get("to") in ("bcast", f.get("sid")) for f in m["got"]):
             return "KF_ForgedMissesServer"
     return None
@@ -180,7 +184,7 @@ def run(ctx):
     stats = {"unreproduced": [], "drift": []}
     tlcs, behs = {}, []
     plan = ([("full", 4, 5, 400), ("core", 6, 10, 400)] if quick else
-            [("full", 5, 6, 1500), ("core", 7, 6, 900), ("full", 4, 1, 300)])
+            [("full", 6, 5, 1500), ("core", 8, 3, 900)])
     for alphabet, depth, every, to in plan:
         r = xc.tlc_ok(ctx, "DhcpModesMC", mc_cfg(alphabet, depth, every), "%s alphabet, depth %d" % (alphabet, depth), timeout=to, heap="4g")
         tlcs["%s-d%d" % (alphabet, depth)] = r.summary()
@@ -209,10 +213,11 @@ def run(ctx):
         "tlc": tlcs, "states": states, "transitions": trans,
         "step_predicates_decided_on_every_transition": STEP_PREDICATES,
         "traces_validated_against_impl": summary["behaviours"], "steps_executed": summary["steps"],
-        "driver": {k: v for k, v in summary.items() if k != "site_examples"},
+        "driver": {k: v for k, v in summary.items() if k not in ("site_examples", "drift_examples")},
         "sites_confirmed_on_real_code": summary.get("sites", {}),
         "site_kinds": {k: v[0] for k, v in SITES.items()},
-        "differences": len(diffs), "drift": stats["drift"][:20], "drift_count": len(stats["drift"]),
+        "differences": len(diffs), "drift": (stats["drift"] + summary.get("drift_examples", []))[:20],
+        "drift_count": len(stats["drift"]) + summary.get("drift_forged_to", 0),
         "unreproduced": stats["unreproduced"][:20], "unreproduced_count": len(stats["unreproduced"]),
         "samples": [behs[len(behs) // 3], walks[0]],
         "exhaustive": False,
